@@ -28,15 +28,15 @@ type SpecRef struct {
 
 // Resolution is what the statement of C01 says a cache over the layout holds.
 type Resolution struct {
-	Devices    map[string]Winner     // resolvable qualified names
-	Defined    map[string]bool       // qualified names defined by some valid file in a configured directory
-	Conflicted map[string]bool       // defined, but the highest-priority directory defines them in several files
-	Vendors    []string
-	Classes    []string
-	Specs      map[string][]SpecRef  // per vendor, in scan order (priority, then name)
-	BadFiles   map[string]string     // path -> kind of every invalid Spec-named file in a configured directory
-	ConflictFiles map[string]bool    // paths of valid files taking part in a same-priority conflict at any level
-	GoodFiles  map[string]bool       // valid, in no conflict at all
+	Devices       map[string]Winner // resolvable qualified names
+	Defined       map[string]bool   // qualified names defined by some valid file in a configured directory
+	Conflicted    map[string]bool   // defined, but the highest-priority directory defines them in several files
+	Vendors       []string
+	Classes       []string
+	Specs         map[string][]SpecRef // per vendor, in scan order (priority, then name)
+	BadFiles      map[string]string    // path -> kind of every invalid Spec-named file in a configured directory
+	ConflictFiles map[string]bool      // paths of valid files taking part in a same-priority conflict at any level
+	GoodFiles     map[string]bool      // valid, in no conflict at all
 }
 
 // Resolve computes the reference resolution: for each qualified name q let I
